@@ -112,3 +112,22 @@ Theorem C11_udp_announce_registers_address :
       (a_event a <> EvStopped -> seeders sw !! a_key a = Some clock \/ leechers sw !! a_key a = Some clock).
 Proof. exact udp_announce_registers_address. Qed.
 Print Assumptions C11_udp_announce_registers_address.
+
+(* ... and over HTTP, through parse -> logic -> store in every reachable state: the transport source (remote address or the
+   configured real-IP header) when spoofing is off or no address parameter is supplied, the supplied parameter when spoofing
+   is on - and the swarm afterwards lists exactly that key *)
+Theorem C11_http_announce_registers_address :
+  forall parse_ip header_get split_host t o ops clock uri remote r q,
+    (forall s ip, parse_ip s = Some ip -> wf_bytes ip = true /\ (length ip = 4 \/ length ip = 16)%nat) ->
+    Forall sop_sane ops -> wf_bytes uri = true ->
+    HttpParse.parse_announce parse_ip header_get split_host o uri remote = HttpParse.Accept (r, q) ->
+    let a := ann_of_areq r in
+    (HttpParse.o_spoof o = false \/ client_supplied q = None ->
+       exists ip, parse_ip (transport_source header_get split_host o remote) = Some ip /\ p_ip (a_peer a) = stored_form ip) /\
+    (forall s, HttpParse.o_spoof o = true -> client_supplied q = Some s ->
+       exists ip, parse_ip s = Some ip /\ p_ip (a_peer a) = stored_form ip) /\
+    let sp' := (http_announce_step spec_if parse_ip header_get split_host t o (run_spec ops) clock uri remote).1 in
+    let sw := swarm_of sp' (a_ih a) (a_v6 a) in
+    (a_event a <> EvStopped -> seeders sw !! a_key a = Some clock \/ leechers sw !! a_key a = Some clock).
+Proof. exact http_announce_registers_address. Qed.
+Print Assumptions C11_http_announce_registers_address.
